@@ -290,10 +290,18 @@ def jobs(tier, seed):
                         m += 1
     # medium-size datasets (12-30 rows, category extents 4-7, 4-5 columns): reach size-threshold code paths
     base = len(structures())
-    for k, (st, N, E) in enumerate((([(5,)], 12, (4,)), ([(4,), ()], 16, (5, 4)), ([(), (3,)], 30, (7, 3)), ([(2, 3)], 14, (5,)), ([(3,), (2,)], 20, (4, 4)))):
+    for k, (st, N, E) in enumerate((([(5,)], 12, (4,)), ([(4,), ()], 16, (5, 4)), ([(), (3,)], 30, (7, 3)), ([(2, 3)], 14, (5,)), ([(3,), (2,)], 20, (4, 4)),
+                                   ([(17,)], 3, (3,)), ([(18,), ()], 4, (2, 3)), ([(), (9,)], 5, (3, 2)))):
         tot = total_datasets(st, N, E)
         for ix in spaced(tot, 2, (k * 977 + 5) % tot):
-            yield base + k, st, N, E, dims_from_index(ix, st, N, E), ix % 97
+            views = dims_from_index(ix, st, N, E)
+            yield base + k, st, N, E, views, ix % 97
+            # the same data with the trailing extra-axis positions holding a single category (all-common slices)
+            v2 = [v.copy() for v in views]
+            for v in v2:
+                if v.ndim > 1 and v.shape[1] > 2:
+                    v[:, -2:] = 0
+            yield base + k, st, N, E, v2, (ix + 1) % 97
 
 
 def is_sampled(tier):
